@@ -67,6 +67,9 @@ package dispatcher
 //@   ensures [C17:iff_window] result <==> signingValidAt(v, at)
 
 //@ func selectSigningSecretRef
+//@   modifies selectAt
+//@   sets selectAt := at
+//@   ensures [C17:records_instant] selectAt == at
 //@   loop 1 invariant [bounds] selectedIdx >= -1 && selectedIdx <= rangeindex && rangeindex < len(cfg.SecretVersions) && cfg != nil && (selection == "newest_valid" || selection == "oldest_valid")
 //@   loop 1 invariant [none_so_far] selectedIdx < 0 ==> forall j int :: 0 <= j && j <= rangeindex ==> !signingValidAt(cfg.SecretVersions[j], at)
 //@   loop 1 invariant [best_so_far] selectedIdx >= 0 ==> signingValidAt(cfg.SecretVersions[selectedIdx], at) && forall j int :: 0 <= j && j <= rangeindex && j != selectedIdx && signingValidAt(cfg.SecretVersions[j], at) ==> !betterVersion(cfg.SecretVersions[j], cfg.SecretVersions[selectedIdx], selection == "newest_valid") && (cfg.SecretVersions[j].ValidFrom != cfg.SecretVersions[selectedIdx].ValidFrom || cfg.SecretVersions[j].ID != cfg.SecretVersions[selectedIdx].ID || selectedIdx < j)
@@ -116,6 +119,7 @@ package dispatcher
 //@ ghost var signedReq *http.Request
 //@ ghost var clockNow time.Time
 //@ ghost var lastSecret []byte
+//@ ghost var selectAt time.Time
 //@ ghost var macKey []byte
 //@ ghost var macData string
 //@ ufunc hmacSHA256(key []byte, data string) []byte
@@ -183,7 +187,8 @@ package dispatcher
 
 //@ func (*HTTPDeliverer).applyDeliverySigning
 //@   requires d != nil && req != nil && req.URL != nil && req.Header != nil
-//@   modifies req.Header, clockNow, lastSecret, macKey, macData, signedReq
+//@   modifies req.Header, clockNow, lastSecret, macKey, macData, signedReq, selectAt
+//@   ensures [C17:one_instant] delivery.Sign != nil && result == nil ==> selectAt == clockNow
 //@   sets signedReq := ite(result == nil, req, old(signedReq))
 //@   ensures [C17:unsigned_untouched] delivery.Sign == nil ==> result == nil
 //@   ensures [C17:signature_header] delivery.Sign != nil && result == nil ==> let ts := itoa(unixSeconds(clockNow)) :: let p := ite(ext("net/url.(*URL).EscapedPath", req.URL) == "", "/", ext("net/url.(*URL).EscapedPath", req.URL)) :: canon(trim(delivery.Sign.SignatureHeader)) in req.Header && len(req.Header[canon(trim(delivery.Sign.SignatureHeader))]) == 1 && req.Header[canon(trim(delivery.Sign.SignatureHeader))][0] == hexOf(hmacSHA256(lastSecret, concat(upper(req.Method), "\n", p, "\n", ts, "\n", hexOf(sha256Of(delivery.Body))))) && len(lastSecret) > 0
